@@ -1,13 +1,16 @@
-# setup: build the whole Coq development (full .vo), extract the models, build the OCaml drivers
+# setup: build the whole Coq development (full .vo), extract the models, build the OCaml drivers.
+# Files of properties that are still being worked on may fail to compile; setup only insists on the
+# proof and extraction targets of the properties claimed in MANIFEST.json (tools/check_setup.py).
 .PHONY: setup coq drivers clean
 setup: coq drivers
+	python3 tools/check_setup.py
 
 coq:
 	python3 -c "import sys; sys.path.insert(0,'/verif/lib'); import vf; vf.coq_prepare()"
-	timeout 3000 $(MAKE) -C coq -k -j16
+	-timeout 3000 $(MAKE) -C coq -k -j16
 
 drivers: coq
-	python3 tools/build_drivers.py
+	-python3 tools/build_drivers.py
 
 clean:
 	-$(MAKE) -C coq clean
